@@ -106,6 +106,8 @@ type Case struct {
 	LaterOK     int    `json:"later_ok,omitempty"`     // later Reads/Writes that SUCCEEDED on a connection of the lost tunnel
 	CloseStuck  bool   `json:"close_stuck,omitempty"`  // Endpoint.Close did not return
 	FrontsTotal int    `json:"fronts,omitempty"`
+	Timeline    []int  `json:"timeline_ms,omitempty"` // since the fault: noticed, accept loop ended, Close returned, fronts observed, reads observed
+	RegAtFronts bool   `json:"registered_when_fronts_observed,omitempty"`
 	Skipped        bool     `json:"skipped,omitempty"`         // not run: the stream was stopped after repeated stranding
 	Queued         int      `json:"queued_at_release,omitempty"`
 	Leak           []string `json:"leak,omitempty"`
@@ -661,8 +663,15 @@ func runEP(c *Case) {
 		c.Crash = "dial endpoint: " + err.Error()
 		return
 	}
-	for t0 := time.Now(); srv.VerifLookup("/site") == nil && time.Since(t0) < waitBound; {
-		time.Sleep(100 * time.Microsecond)
+	// (the server maps the name first and calls the endpoint callback a moment
+	// later: wait for both)
+	for t0 := time.Now(); time.Since(t0) < waitBound; time.Sleep(100 * time.Microsecond) {
+		mu.Lock()
+		nc := len(clients)
+		mu.Unlock()
+		if nc > 0 && srv.VerifLookup("/site") != nil {
+			break
+		}
 	}
 	mu.Lock()
 	var first *sniproxy.VerifClient
@@ -873,6 +882,25 @@ func countFrame(fn string) int {
 	return n
 }
 
+// closedBy reports whether ch is closed, waiting until end at the latest.
+func closedBy(ch <-chan struct{}, end time.Time) bool {
+	select {
+	case <-ch:
+		return true
+	default:
+	}
+	d := time.Until(end)
+	if d <= 0 {
+		return false
+	}
+	select {
+	case <-ch:
+		return true
+	case <-time.After(d):
+		return false
+	}
+}
+
 // accepted is one connection Accept handed to the application, which at once
 // starts to read from it; after that Read has returned it reads once more and
 // writes.
@@ -936,8 +964,15 @@ func runEPB(c *Case) {
 		c.Crash = "dial endpoint: " + err.Error()
 		return
 	}
-	for t0 := time.Now(); srv.VerifLookup("/site") == nil && time.Since(t0) < waitBound; {
-		time.Sleep(100 * time.Microsecond)
+	// (the server maps the name first and calls the endpoint callback a moment
+	// later: wait for both)
+	for t0 := time.Now(); time.Since(t0) < waitBound; time.Sleep(100 * time.Microsecond) {
+		mu.Lock()
+		nc := len(clients)
+		mu.Unlock()
+		if nc > 0 && srv.VerifLookup("/site") != nil {
+			break
+		}
 	}
 	mu.Lock()
 	var first *sniproxy.VerifClient
@@ -995,6 +1030,7 @@ func runEPB(c *Case) {
 
 	// the control connection goes away
 	ref := time.Now()
+	mark := func() { c.Timeline = append(c.Timeline, int(time.Since(ref)/time.Millisecond)) }
 	var ep2 *sniproxy.Endpoint
 	closeDone := make(chan struct{})
 	closeOnce := func() {
@@ -1031,6 +1067,7 @@ func runEPB(c *Case) {
 		}
 	}
 	c.Noticed = seen >= 2
+	mark()
 
 	// the application's accept loop, until Accept fails
 	var accMu sync.Mutex
@@ -1063,6 +1100,7 @@ func runEPB(c *Case) {
 	case <-time.After(waitBound):
 		c.AcceptEnd = "stuck"
 	}
+	mark()
 	if c.Fault != "close-endpoint" {
 		go closeOnce()
 	}
@@ -1071,40 +1109,66 @@ func runEPB(c *Case) {
 	case <-time.After(waitBound):
 		c.CloseStuck = true
 	}
-	_ = ref
-
+	mark()
 	// observations
-	end := time.Now().Add(waitBound)
+	obsBound := waitBound
+	if side && obsBound > 5*time.Second {
+		// (on a sound tree everything below takes milliseconds; a side-mode
+		// scenario costs two bounds on a tree that orphans side connections)
+		obsBound = 5 * time.Second
+	}
+	end := time.Now().Add(obsBound)
 	c.FrontClosed = make([]bool, n)
 	if side {
 		// established side connections are websockets of their own and may
-		// live on; the front connections whose dial was in flight must go
-		end = time.Now().Add(waitBound)
+		// live on; only the front connections whose dial was in flight must
+		// go: wait for those
+		for time.Now().Before(end) {
+			nclosed := 0
+			for j := 0; j < n; j++ {
+				select {
+				case <-closedCh[j]:
+					nclosed++
+				default:
+				}
+			}
+			if nclosed >= want {
+				break
+			}
+			time.Sleep(time.Millisecond)
+		}
+		end = time.Now()
 	}
 	for j := 0; j < n; j++ {
-		select {
-		case <-closedCh[j]:
-			c.FrontClosed[j] = true
-		case <-time.After(time.Until(end)):
-		}
+		c.FrontClosed[j] = closedBy(closedCh[j], end)
+	}
+	mark()
+	if cur := srv.VerifLookup("/site"); cur != nil && cur.Same(first) {
+		c.RegAtFronts = true
 	}
 	accMu.Lock()
 	mine := append([]*accepted{}, accs...)
 	accMu.Unlock()
 	c.Accepted = len(mine)
-	end = time.Now().Add(waitBound)
-	for j, a := range mine {
-		select {
-		case <-a.readDone:
-			select {
-			case <-a.laterDone:
-			case <-time.After(time.Until(end)):
-				c.LaterStuck = append(c.LaterStuck, j)
-			}
-		case <-time.After(time.Until(end)):
-			c.ReadStuck = append(c.ReadStuck, j)
+	if side {
+		// the established side connections live as long as their front
+		// connections: the clients hang up now, so that every connection the
+		// application holds has to end -- those whose front connection the
+		// proxy has closed already because the server closes them, the others
+		// because their front connection is gone
+		for _, fc := range fronts {
+			fc.Close()
 		}
 	}
+	end = time.Now().Add(obsBound)
+	for j, a := range mine {
+		if !closedBy(a.readDone, end) {
+			c.ReadStuck = append(c.ReadStuck, j)
+		} else if !closedBy(a.laterDone, end) {
+			c.LaterStuck = append(c.LaterStuck, j)
+		}
+	}
+	mark()
 	for end = time.Now().Add(waitBound); time.Now().Before(end); time.Sleep(time.Millisecond) {
 		cur := srv.VerifLookup("/site")
 		if cur == nil || !cur.Same(first) {
@@ -1124,19 +1188,20 @@ func runEPB(c *Case) {
 		go ep2.Close()
 	}
 	fcancel()
+	end = time.Now().Add(obsBound)
 	select {
 	case <-frontDone:
 		c.FrontReturned = true
-	case <-time.After(waitBound):
+	case <-time.After(time.Until(end)):
 	}
 	done := make(chan struct{})
 	go func() { backs.Wait(); close(done) }()
 	select {
 	case <-done:
 		c.BackReturned = true
-	case <-time.After(waitBound):
+	case <-time.After(time.Until(end)):
 	}
-	left := waitCount(e2eFrames, []string{"Verif"}, len(leakBase), waitBound)
+	left := waitCount(e2eFrames, []string{"Verif"}, len(leakBase), time.Until(end))
 	seenG := map[string]int{}
 	for _, g := range leakBase {
 		seenG[g]++
@@ -1331,8 +1396,15 @@ func runE2E(c *Case) {
 	}()
 	// Dial returns when the websocket handshake is done; the server maps the
 	// name a moment later
-	for t0 := time.Now(); srv.VerifLookup("/site") == nil && time.Since(t0) < waitBound; {
-		time.Sleep(100 * time.Microsecond)
+	// (the server maps the name first and calls the endpoint callback a moment
+	// later: wait for both)
+	for t0 := time.Now(); time.Since(t0) < waitBound; time.Sleep(100 * time.Microsecond) {
+		mu.Lock()
+		nc := len(clients)
+		mu.Unlock()
+		if nc > 0 && srv.VerifLookup("/site") != nil {
+			break
+		}
 	}
 
 	// k tunnelled front connections, each proven live by an echo
